@@ -6,6 +6,7 @@ import Driver.OpsCli
 import Driver.OpsCode
 import Driver.OpsDeform
 import Driver.OpsGui
+import Driver.OpsLatPlanar3DCode
 import Driver.OpsLatToric3DCode
 import Driver.OpsMask
 import Driver.OpsNoise
@@ -16,7 +17,7 @@ open Panqec
     (`none` = not my op); the first that answers wins. -/
 
 def handlers : List (List String → Option String) :=
-  [Drv.handleBatch, Drv.handleBits, Drv.handleCli, Drv.handleCode, Drv.handleDeform, Drv.handleGui, Drv.handleLatToric3DCode, Drv.handleMask, Drv.handleNoise]
+  [Drv.handleBatch, Drv.handleBits, Drv.handleCli, Drv.handleCode, Drv.handleDeform, Drv.handleGui, Drv.handleLatPlanar3DCode, Drv.handleLatToric3DCode, Drv.handleMask, Drv.handleNoise]
 
 def handleToks (toks : List String) : String :=
   match handlers.findSome? (fun h => h toks) with
